@@ -32,6 +32,7 @@ type VM struct {
 	maxAllocs   int64
 	allocs      int64
 	err         error
+	verif       verifVM
 }
 
 // NewVM creates a VM.
@@ -56,6 +57,9 @@ func NewVM(
 	v.frames[0].ip = -1
 	v.curFrame = &v.frames[0]
 	v.curInsts = v.curFrame.fn.Instructions
+	if verifOn {
+		verifNewVM(v)
+	}
 	return v
 }
 
@@ -97,6 +101,9 @@ func (v *VM) Run() (err error) {
 func (v *VM) run() {
 	for atomic.LoadInt64(&v.aborting) == 0 {
 		v.ip++
+		if verifOn {
+			verifProbe(v)
+		}
 
 		switch v.curInsts[v.ip] {
 		case parser.OpConstant:
